@@ -25,12 +25,16 @@ PID = "C16"
 def corpus(rng, cfg, tier):
     clj = cfg in ("clj", "both")
     exp = cfg in ("exp", "both")
-    docs = [b"nil", b"42", b"-9223372036854775808", b"123456789012345678901234567890", b"1.5", b"2.5M", b"7N", b"1e400", b"0." + b"1" * 60,
+    docs = [b"nil", b"42", b"-9223372036854775808", b"123456789012345678901234567890", b"1.5", b"2.5M", b"7N", b"1e400", b"0." + b"1" * 60, b"0." + b"1" * 600, b"[1." + b"7" * 5000 + b"e3 2]", b"3" * 700 + b".5", b"3" * 700, b"3" * 700 + b"N", b"1." + b"5" * 600 + b"M",
             b"\"plain\"", b"\"esc\\n\\t\\\\\"", b"\"" + b"x" * 300 + b"\\n\"", b"\\a", b"\\newline", b"\\u0041", b":kw", b":ns/kw", b"sym", b"ns/sym",
             b"[]", b"()", b"{}", b"#{}", b"[1]", b"[1 2 3 4 5 6 7 8]", b"[1 2 3 4 5 6 7 8 9]", b"(" + b" ".join(b"%d" % i for i in range(13)) + b")",
             b"[" + b" ".join(b"%d" % i for i in range(40)) + b"]", b"#{" + b" ".join(b"%d" % i for i in range(20)) + b"}",
             b"#{" + b" ".join(b"%d" % i for i in range(1100)) + b"}",
-            b"{" + b" ".join(b":k%d %d" % (i, i) for i in range(12)) + b"}", b"{:a {:b {:c [1 2 {:d #{1 2}}]}}}",
+            b"{" + b" ".join(b":k%d %d" % (i, i) for i in range(12)) + b"}",
+            # documents that need a second, third ... arena block (values, grown element arrays, lazily decoded strings)
+            b"[" + b" ".join(b"%d" % i for i in range(1000)) + b"]", b"[" + b" ".join(b"%d" % i for i in range(5000)) + b"]",
+            b"[" + b" ".join(b"\"s%d\\n\"" % i for i in range(400)) + b"]", b"[\"" + b"x" * 70000 + b"\\n\" \"" + b"y" * 100000 + b"\\t\"]",
+            b"{" + b" ".join(b":k%d [%d %d]" % (i, i, i) for i in range(600)) + b"}", b"\n" * 70000 + b"]", b"{:a {:b {:c [1 2 {:d #{1 2}}]}}}",
             b"#inst \"2020\"", b"#my/tag [1 2 3]", b"[#t 1 #u [2] #v {:a 3}]", b"#_ [1 2 3] 4", b"[1 #_ 2 3]", b"##Inf", b"[##NaN ##-Inf]",
             b"[\"a\\nb\" \"c\\td\" \"e\"]", b"{\"k\\n\" 1 \"k2\" 2}", b"#{\"a\\n\" \"a\\t\"}", b"; c\n[1 ; d\n 2]",
             b"[1 2", b"{:a}", b"#{1 1}", b"{:a 1 :a 2}", b"[1 2)", b"\"abc", b"\\", b"#", b"[\n\n1 \n\n 2 x#]", b"\n\n\n)", b"[[[[[[[[[[1]]]]]]]]]]"]
@@ -38,7 +42,8 @@ def corpus(rng, cfg, tier):
         docs += [b"^:a [1]", b"^{:a 1} ^:b ^\"s\" ^T sym", b"^{:a 1 :b 2} ^{:a 3} {:k 1}", b"#:p{:a 1 b 2 :_/c 3}", b"#:p{:a 1 :p/a 2}", b"0x1F", b"017", b"2r101",
                  b"1/2", b"123456789012345678901/3", b"\"\\u0041\\101\"", b"\\o101", b"[^:a x ^:b y]", b"^:a 5", b"[^:a]"]
     if exp:
-        docs += [b"\"\"\"\n  a\n   b\n  \"\"\"", b"\"\"\"\nx \\\"\"\" y\"\"\"", b"\"\"\"\n\n\n\"\"\"", b"1_000", b"1_0.5_0", b"\"\"\"\nabc", b"[\"\"\"\n a\n \"\"\" \"\"\"\n a\n \"\"\"]",
+        docs += [b"\"\"\"\n" + b"".join(b"  line %02d\n" % i for i in range(20)) + b"  \"\"\"", b"[\"\"\"\n" + b"".join(b" l%d \\\"\"\" x\n" % i for i in range(40)) + b"\"\"\"]",
+                 b"\"\"\"\n  a\n   b\n  \"\"\"", b"\"\"\"\nx \\\"\"\" y\"\"\"", b"\"\"\"\n\n\n\"\"\"", b"1_000", b"1_0.5_0", b"\"\"\"\nabc", b"[\"\"\"\n a\n \"\"\" \"\"\"\n a\n \"\"\"]",
                  b"#{\"\"\"\n a\n \"\"\" \" a\\n\"}"]
     n = 25 if tier == "quick" else 250
     for _ in range(n):
@@ -158,8 +163,19 @@ def run(tier):
                     continue
                 dump0, r_read, r_all, _, _ = pf
                 ks = list(range(1, r_all + 1))
-                if len(ks) > 60 and tier == "quick":
-                    ks = ks[:25] + rng.sample(ks[25:-10], 15) + ks[-10:]
+                cap = 60 if tier == "quick" else 400
+                if len(ks) > cap:
+                    # always: every raw malloc/calloc/realloc request (new arena blocks, scratch arrays, line index ...) and
+                    # its neighbours, the first and the last requests; the rest sampled
+                    tm = re.search(r"trace=\[([^\]]*)\]", b)
+                    kinds = tm.group(1).split() if tm else []
+                    raw = [i + 1 for i, t in enumerate(kinds) if t[:1] in ("m", "c", "r")]
+                    keep = set(ks[:20]) | set(ks[-8:])
+                    for k0 in raw[:40]:
+                        keep.update(k for k in (k0 - 1, k0, k0 + 1) if 1 <= k <= r_all)
+                    rest = [k for k in ks if k not in keep]
+                    keep.update(rng.sample(rest, min(len(rest), cap // 4)))
+                    ks = sorted(keep)
                 for k in ks:
                     for mode in (1, 2):
                         lines.append("F %d %d %d %s" % (k, mode, opt, C.hexs(d)))
